@@ -6,7 +6,7 @@
     (reverse, filter, sort, partition) are compared with Python's sequence operations by the check;
     append/sum/partition's expansions are proved in C15. *)
 From WalModel Require Import Eval.
-From WalModel.proofs Require Import ListProofs.
+From WalModel.proofs Require Import ListProofs ListOps.
 Local Open Scope Z_scope.
 
 Section ListOps.
@@ -155,3 +155,49 @@ Theorem fold_times_multiplies : forall lf f a l a0 w zs st st1 st2,
   op_fold (eval lf (S (S (S f)))) [VOp OMul; a; l] st = Ok (VInt (fold_left Z.mul zs a0)) st2.
 Proof. exact fold_times_is_the_product. Qed.
 Print Assumptions fold_times_multiplies.
+
+(** * more list operators, for any sub-evaluator *)
+Theorem plus_of_two_lists_is_append : forall ev a b w1 l1 w2 l2 st st1 st2,
+  ev a st = Ok (VList w1 l1) st1 -> ev b st1 = Ok (VList w2 l2) st2 -> op_add ev [a; b] st = Ok (PL (l1 ++ l2)) st2.
+Proof. exact plus_of_two_lists. Qed.
+Print Assumptions plus_of_two_lists_is_append.
+Theorem plus_of_a_list_and_an_element : forall ev a b w1 l1 x st st1 st2,
+  ev a st = Ok (VList w1 l1) st1 -> ev b st1 = Ok x st2 -> is_list_val x = false -> op_add ev [a; b] st = Ok (PL (l1 ++ [x])) st2.
+Proof. exact plus_appends_an_element. Qed.
+Print Assumptions plus_of_a_list_and_an_element.
+Theorem in_decides_membership : forall ev x l z w zs st st1 st2,
+  ev x st = Ok (VInt z) st1 -> ev l st1 = Ok (VList w (map VInt zs)) st2 ->
+  op_in ev [x; l] st = Ok (VBool (existsb (Z.eqb z) zs)) st2.
+Proof. exact in_is_membership. Qed.
+Print Assumptions in_decides_membership.
+Theorem max_returns_the_maximum : forall ev l w z zs st st1,
+  ev l st = Ok (VList w (map VInt (z :: zs))) st1 ->
+  exists m, op_maxmin ev true [l] st = Ok (VInt m) st1 /\ In m (z :: zs) /\ forall y, In y (z :: zs) -> y <= m.
+Proof. exact max_is_the_maximum. Qed.
+Print Assumptions max_returns_the_maximum.
+Theorem min_returns_the_minimum : forall ev l w z zs st st1,
+  ev l st = Ok (VList w (map VInt (z :: zs))) st1 ->
+  exists m, op_maxmin ev false [l] st = Ok (VInt m) st1 /\ In m (z :: zs) /\ forall y, In y (z :: zs) -> m <= y.
+Proof. exact min_is_the_minimum. Qed.
+Print Assumptions min_returns_the_minimum.
+Theorem max_of_the_empty_list_is_an_error : forall ev l w b st st1,
+  ev l st = Ok (VList w []) st1 -> op_maxmin ev b [l] st = Er EOther st1.
+Proof. exact max_of_empty_is_an_error. Qed.
+Print Assumptions max_of_the_empty_list_is_an_error.
+Theorem length_of_a_string_is_its_length : forall ev l s st st1,
+  ev l st = Ok (VStr s) st1 -> op_length ev [l] st = Ok (VInt (slen s)) st1.
+Proof. exact length_of_a_string. Qed.
+Print Assumptions length_of_a_string_is_its_length.
+Example list_operators_with_the_real_evaluator : forall lf f st,
+  eval lf (S (S (S (S f)))) (WL [VOp OList;
+      WL [VOp OFirst; quoted (PL [VInt 4; VInt 7; VInt 1])];
+      WL [VOp OLast; quoted (PL [VInt 4; VInt 7; VInt 1])];
+      WL [VOp ORest; quoted (PL [VInt 4; VInt 7; VInt 1])];
+      WL [VOp OMax; quoted (PL [VInt 4; VInt 7; VInt 1])];
+      WL [VOp OIn; VInt 7; quoted (PL [VInt 4; VInt 7; VInt 1])];
+      WL [VOp OAdd; quoted (PL [VInt 4]); VInt 5; quoted (PL [VInt 6])];
+      WL [VOp OZip; quoted (PL [VInt 1; VInt 2]); quoted (PL [VInt 3; VInt 4; VInt 5])]]) st
+  = Ok (WL [VInt 4; VInt 1; PL [VInt 7; VInt 1]; VInt 7; VBool true; PL [VInt 4; VInt 5; VInt 6];
+            PL [PL [VInt 1; VInt 3]; PL [VInt 2; VInt 4]]]) st.
+Proof. exact list_ops_demo. Qed.
+Print Assumptions list_operators_with_the_real_evaluator.
